@@ -198,6 +198,8 @@ class Path:
                 return o.fields[name]
             if o.kind == "ns" and o.proto is not None:
                 return self._getattr(o.proto, name)
+            if o.kind == "arr" and o.none_like is not None and name not in ("T", "shape", "ndim", "size", "dtype", "base", "real", "imag", "flat"):
+                return self._getattr(o.none_like, name)        # copy.copy(obj) is shallow: its members are the source's
         if base[0] == "g":
             return ("g", base[1] + "." + name)
         if base == ("s", "self") and self.I.cls and self.I.method(name) is not None:
@@ -270,7 +272,9 @@ class Path:
                     return False
                 if x[0] in ("op", "tup", "lst", "slice", "ld"):
                     return False
-                if x[0] == "call" and x[1] in ("la.lu_factor", "np.ix_", ".copy", ".nonzero", "slice"):
+                if x[0] == "call" and (x[1] in ("la.lu_factor", ".copy", ".nonzero", "slice") or (x[1].startswith("np.") and x[1] != "np.where")):
+                    return False
+                if x[0] == "idx" and x[1][0] == "call" and x[1][1] == ".nonzero":
                     return False
             return None
         if n == "in":
@@ -484,7 +488,16 @@ class Path:
                 if r is not NotImplemented:
                     return r
             name = fdef.name if bound is None else "self." + fdef.name
-            return self._opaque(name, args, kws, n)
+            # keyword arguments of a known signature take their positions
+            ps = [x.arg for x in fdef.args.posonlyargs + fdef.args.args]
+            if bound is not None and ps and not any(dotted(d) == "staticmethod" for d in fdef.decorator_list):
+                ps = ps[1:]
+            args, rest = list(args), []
+            kd = dict((k, v) for k, v in kws if k != "**")
+            while len(args) < len(ps) and ps[len(args)] in kd:
+                args.append(kd.pop(ps[len(args)]))
+            rest = [(k, v) for k, v in kws if k == "**" or k in kd]
+            return self._opaque(name, args, rest, n)
         if f[0] == "g":
             name = f[1]
         elif f[0] == "attr":
@@ -698,7 +711,7 @@ class Path:
     # ------------------------------------------------------------------ stores
     def _store(self, base, idx, val, node, aug=False):
         st = self._st(base, create=True)
-        if st.kind in ("dict", "opaque") and is_const(idx) and isinstance(idx[1], str):
+        if st.kind == "dict" or (st.kind == "opaque" and is_const(idx) and isinstance(idx[1], str)):
             st.items[idx] = val
         elif st.kind == "arr":
             if not self.loops:
